@@ -1,6 +1,8 @@
 # C10: WalIndex::persist / set (index.rs) over the power-loss file system model: what survives a power loss once the call returned.
 from specs.units._core import *
 IDX = RT + "index.rs"
+PATHS = "src/wal/paths.rs"
+CFG = "src/wal/config.rs"
 RULES = [
     dict(rule="R9", kind="lit", old='format!("{}.tmp", self.path)', new="tmp_name(&self.path)", why='format!("{}.tmp", path) -> stub with the concatenation as its spec'),
     dict(rule="R5", kind="re", dotall=True, pat=r"rkyv::to_bytes::<_, 256>\(&self\.store\)\.map_err\(\|e\| \{.*?\}\)\?", repl="(match rkyv_to_bytes_index(&self.store) { Ok(b) => b, Err(_) => return Err(io_err(IoKind::Other)) })",
@@ -10,6 +12,18 @@ RULES = [
     dict(rule="R6", kind="lit", old="fs::rename(&tmp_path, &self.path)?;", new="fs_rename(fs, &tmp_path, &self.path)?;", why="std::fs::rename -> power-loss model"),
     dict(rule="R6", kind="lit", old="sync_parent_dir(&self.path)?;", new="fs_sync_dir(fs)?;", min=0, why="sync of the parent directory -> power-loss model (one directory)"),
 ] + IOERR_RULES
+P_RULES = [
+    dict(rule="R6", kind="re", pat=r"self\.ensure_root\(\)", repl="self.ensure_root(fs)", min=0, why="ghost file system threaded"),
+    dict(rule="R9", kind="lit", old="self.root.join(&file_name)", new="path_join(&self.root, &file_name)", min=0, why="PathBuf::join -> stub"),
+    dict(rule="R6", kind="re", pat=r"(?:std::)?fs::File::create\(&path\)", repl="fs_create(fs, &path)", min=0, why="File::create -> power-loss model"),
+    dict(rule="R6", kind="re", pat=r"(?:std::)?fs::File::open\(&self\.root\)", repl="fs_open_dir(fs, &self.root)", min=0, why="File::open(dir) -> power-loss model"),
+    dict(rule="R6", kind="re", pat=r"(?:std::)?fs::create_dir_all\(&self\.root\)", repl="fs_create_dir_all(fs, &self.root)", min=0, why="create_dir_all -> power-loss model"),
+    dict(rule="R6", kind="re", pat=r"\.set_len\(", repl=".set_len(fs, ", min=0, why="ghost file system threaded"),
+    dict(rule="R6", kind="re", pat=r"\.sync_all\(\)", repl=".sync_all(fs)", min=0, why="ghost file system threaded"),
+    dict(rule="R9", kind="lit", old="path.to_string_lossy().into_owned()", new="path_to_string(&path)", min=0, why="PathBuf -> String stub"),
+]
+P_SIG = [dict(pat=r"\(&self\)", repl="(&self, fs: &mut Fs)")] + IOERR_SIG
+
 UNIT = dict(
     name="c10_persist",
     props=["C10", "C09"],
@@ -30,5 +44,11 @@ UNIT = dict(
                        ("", "forall|p: Seq<char>| #[trigger] old(fs).dur_dir@.contains_key(p) && p != self.path@ + seq!['.', 't', 'm', 'p'] && old(fs).vol_dir@.contains_key(self.path@ + seq!['.', 't', 'm', 'p']) ==> old(fs).dur_dir@[p] != old(fs).vol_dir@[self.path@ + seq!['.', 't', 'm', 'p']]")],
              ensures=[("C10,C09:a_persisted_cursor_survives_power_loss_once_the_call_returned", "ret is Ok ==> after_power_loss(*final(fs), self.path@) == Some(index_bytes(self.store@))"),
                       ("C10:a_power_loss_during_persist_leaves_the_old_or_the_new_cursor_file", "ret is Err ==> after_power_loss(*final(fs), self.path@) == after_power_loss(*old(fs), self.path@) || after_power_loss(*final(fs), self.path@) == Some(index_bytes(self.store@))")]),
+        dict(kind="lines", file=CFG, patterns=[r"^pub\(crate\) const DEFAULT_BLOCK_SIZE: u64 = 10 \* 1024 \* 1024;.*$", r"^pub\(crate\) const BLOCKS_PER_FILE: u64 = \d+;$", r"^pub\(crate\) const MAX_FILE_SIZE: u64 = DEFAULT_BLOCK_SIZE \* BLOCKS_PER_FILE;$"]),
+        dict(kind="mirror", file=PATHS, struct="WalPathManager", fields=[("root", "PathBuf", "PathBuf")]),
+        dict(kind="fn", file=PATHS, path="impl WalPathManager / fn ensure_root", sig_rules=P_SIG, rules=P_RULES,
+             ensures=[("", "final(fs).vol_dir == old(fs).vol_dir && final(fs).vol_data == old(fs).vol_data && final(fs).dur_data == old(fs).dur_data")]),
+        dict(kind="fn", file=PATHS, path="impl WalPathManager / fn create_new_file", sig_rules=P_SIG, rules=P_RULES,
+             ensures=[("C10:a_new_wal_file_is_durable_with_its_full_size_when_its_creation_returns", "ret matches Ok(p) ==> after_power_loss(*final(fs), p@) == Some(Seq::new(MAX_FILE_SIZE as nat, |i: int| 0u8))")]),
     ],
 )
